@@ -1,0 +1,15 @@
+//go:build verif
+
+// Contracts for package transfer (C02, C03, C04).
+// Comment-only file, read by /verif/govc.
+
+package transfer
+
+//@ func (sendTx).Validate
+//@   implements action.Tx
+//@   ensures result0 ==> len(tx.Signatures) == 1 && sigOK(rawBytesOf(tx.RawTx), unm(tx.Data, "Send").From, tx.Signatures[0])   // C04.validate
+
+//@ func runTx
+//@   requires ctx != nil && ctx.Balances != nil && curOK(ctx.Currencies)
+//@   ensures result0 ==> forall c string :: balTotal(ctx.Balances)[c] == old(balTotal(ctx.Balances))[c]                          // C02.conserve
+//@   ensures result0 ==> forall k string :: bal(ctx.Balances)[k] < old(bal(ctx.Balances))[k] ==> k == balKey(unm(tx.Data, "Send").From, unm(tx.Data, "Send").Amount.Currency)   // C03.only-signer-debited
